@@ -438,6 +438,12 @@ func (ev *Env) localByName(fr *Frame, name string) (Value, bool) {
 	if !ok {
 		return fc.zeroValue(a.Type().(*types.Pointer).Elem()), true
 	}
+	if pl, isP := pv.(PlaceV); isP && pl.Kind == "obj" && len(pl.Path) == 0 {
+		if _, isArr := pl.Typ.Underlying().(*types.Array); isArr {
+			// an array variable is indexed in place (its elements live in the heap under the variable's object)
+			return pl, true
+		}
+	}
 	return fc.loadPlace(ev.cur(), pv.(PlaceV)), true
 }
 
@@ -914,7 +920,7 @@ func (ev *Env) evalIndex(x *EIndex) Value {
 			return fc.loadPlace(ev.cur(), pl)
 		}
 	}
-	ev.fail("cannot index %s", x.X.String())
+	ev.fail("cannot index %s (%T %+v)", x.X.String(), base, base)
 	return nil
 }
 
